@@ -89,7 +89,7 @@ def params(tier):
     if tier == 'quick':
         return {'examples': 0, 'wall': 200, 'case_timeout': 30}
 
-    return {'examples': 0, 'wall': 1500, 'case_timeout': 30}
+    return {'examples': 0, 'wall': 600, 'case_timeout': 30}
 
 
 def exhaustive(tier):
